@@ -11,8 +11,55 @@ TYPES = ['int', 'unsigned', 'long', 'uint64_t']
 TABLES = {1: '{flag "a", number "b"}', 2: '{string "a", flag "ab"}', 3: '{probe "a" (valued), probe "b" (flag)}: every view handed to a callback is reported'}
 VARIANTS = {0: 'three probe arguments (formatter reports the parsed options)', 1: 'arguments (int, unsigned long, char), real formatters', 2: 'no arguments'}
 
+# ---- single-path units: clang -O1 if-converts `if(c == '{') i++;` into `select`; ir2c renders a select as a C conditional EXPRESSION, so the
+# loop index becomes a symbolic term and every later loop test forks (fmt(): 1509 paths for a 1-byte string, no verdict for 5 bytes).
+# In single-path mode a select must be a BRANCH (both arms then continue with concrete values).  ir2c has no switch for that, so the generated
+# C is rewritten here, before translator validation (which therefore also validates the rewritten text):
+#     r = (c) ? (a) : (b);      ==>      if(c) { r = (a); } else { r = (b); }
+import re
+def _split_select(rhs):
+    def grab(t, i):
+        if t[i] != '(': raise ValueError
+        d = 0
+        for j in range(i, len(t)):
+            if t[j] == '(': d += 1
+            elif t[j] == ')':
+                d -= 1
+                if d == 0: return t[i + 1:j], j + 1
+        raise ValueError
+    c, i = grab(rhs, 0)
+    if rhs[i:i + 3] != ' ? ': return None
+    a, i = grab(rhs, i + 3)
+    if rhs[i:i + 3] != ' : ': return None
+    b, i = grab(rhs, i + 3)
+    return (c, a, b) if i == len(rhs) else None
+def prepare(runner):
+    with open(os.path.join(runner.work, 'c20_cases.h'), 'w') as f:
+        for nm, tab in (('printf', PRINTF_CASES), ('fmt', FMT_CASES), ('cmdline', CMD_CASES)):
+            f.write('static const char *const c20_%s_cases[] = { %s };\n' % (nm, ', '.join(_cstr(t) for t in tab)))
+    for u in UNITS:
+        path = os.path.join(runner.work, u.name + '.c'); out = []; n = 0
+        for l in open(path).read().split('\n'):
+            m = re.match(r'^  (\w+) = (\(.*\) \? \(.*\) : \(.*\));$', l)
+            r = None
+            if m and not m.group(1).startswith('pz_'):
+                try: r = _split_select(m.group(2))
+                except ValueError: r = None
+            if r: out.append('  if(%s) { %s = (%s); } else { %s = (%s); }' % (r[0], m.group(1), r[1], m.group(1), r[2])); n += 1
+            else: out.append(l)
+        open(path, 'w').write('\n'.join(out))
+        runner.say('[prepare] %s: %d select expressions rewritten as branches (single-path exploration)' % (u.name, n))
+
+# concrete inputs of realistic length (harness_concrete entries); written to c20_cases.h in the scratch directory by prepare()
+PRINTF_CASES = ['%d %s %c%%', '%5.3ld|%-8x|%#o', '%2$d %1$s', '%*d %.*s', '%hhu %hd %lld %zu %td %jd %Lu', 'plain text only', '%9$d', "100%% sure: %+05d % i %'u", '%3$s %1$*d',
+                '%1$d%1$d%1$d%1$d', "%-+ #0'12.34lx", '%', '%5', '%.', '%l', 'abc%', '%q %d', '%1$', '%0$d', '%2$d %1$d %2$d', 'x=%2147483647d', 'trailing text %d!']
+FMT_CASES = ['Hello {}!', '{} {:x}', '{:08X}', '{1} {0}', '{{}', '{:h}', '{:03o} {:b} {:d}{:i}', '{', '}', '{:}', '{3}', 'abc{', '{}{}{}{}', '{0:c}{2:c}', '{{{{', '{:0}', '{:12}|{2}', '{18446744073709551616}']
+CMD_CASES = ['a b=12', '"a=x y" ab', 'b=99999999999 a', 'a="q" ab', '  a  ', '"a"', 'x86.nosmp init.exec=/sbin/posix-subsystem b=7', '"unbalanced a', 'a"b', '=', 'a=', 'b=1x a=b=c ab=',
+             '"path1=a space/nospace" foo baz=yoo b=1234 "a=/a/b c/d"', '', 'a "', '"" a', 'b=4294967296']
+def _cstr(t): return '"' + ''.join('\\' + c if c in '"\\' else c for c in t) + '"'
+
 def pf_loops(n):     # every loop of the directive parser runs at most once per format byte (+1 for the exit test); pop_arg's cache loop <= 9 positions
-    return [(r'printf_format', n + 2), (r'pop_arg', 11), (r'.', 48)]
+    return [(r'printf_format', n + 1), (r'pop_arg', 11), (r'.', 48)]
 
 def printf_bytes(name, l, defs, what, timeout=1200, optional=False):
     d = {'L': l}; d.update(defs)
@@ -29,8 +76,8 @@ def queries(tier):
         qs.append(printf_bytes('printf.bytes.L%d' % l, l, {}, ''))
     if not quick:
         # L = 4: byte 0 concrete per query where that prunes ('%', NUL); the remainder keeps byte 0 symbolic
-        qs.append(printf_bytes('printf.bytes.L4.pct', 4, {'C0': 1}, "byte 0 = '%'", timeout=3600))
-        qs.append(printf_bytes('printf.bytes.L4.text', 4, {'C0': 9}, "byte 0 any byte except '%'", timeout=7200))
+        qs.append(printf_bytes('printf.bytes.L4.pct', 4, {'C0': 1}, "byte 0 = '%'", timeout=5400))
+        qs.append(printf_bytes('printf.bytes.L4.text', 4, {'C0': 8}, "byte 0 any byte except '%' and NUL", timeout=7200, optional=True))
     for prec in (0, 1):
         for d in ((3, 9, 10, 11, 12) if quick else range(1, 13)):
             qs.append(Q('printf.digits.%s.D%d' % ('prec' if prec else 'width', d), 'c20_printf', 'c20_printf.c', 'harness_digits', defs={'D': d, 'PREC': prec, 'KSYM': 1 if quick else 2},
@@ -42,11 +89,18 @@ def queries(tier):
         qs.append(Q('printf.positional.max%d' % n, 'c20_printf', 'c20_printf.c', 'harness_positional', defs={'POSMAX': pm, 'NPOS': n}, paths=True, unwind_fn=pf_loops(12), inline_witness=True, witness='any',
                     timeout=900, mem_gb=3, bounds={'format': '%a$d%b$d%c$d', 'a,b,c': 'every triple in 1..%d with max = %d' % (pm, n), 'variadic slots': 'exactly %d (exact-size array)' % n},
                     what='positional directives in any order never read more than max(a,b,c) variadic arguments'))
+    for c, t in enumerate(PRINTF_CASES):
+        qs.append(Q('printf.concrete.%d' % c, 'c20_printf', 'c20_printf.c', 'harness_concrete', defs={'CASE': c}, paths=True, unwind_fn=pf_loops(len(t)), inline_witness=True, witness='any', timeout=300, mem_gb=3,
+                    bounds={'format': 'the concrete format string %r' % t, 'variadic slots': 'exactly declared(fmt), arbitrary values'},
+                    what='printf_format on a concrete realistic format with exactly the declared number of variadic slots'))
     # ---------------------------------------------------------------- fmt()
-    for v, lens in ((0, range(0, 6 if quick else 7)), (1, range(0, 5 if quick else 6)), (2, range(0, 5 if quick else 6))):
+    for c, t in enumerate(FMT_CASES):
+        qs.append(Q('fmt.concrete.%d' % c, 'c20_fmt', 'c20_fmt.c', 'harness_concrete', defs={'CASE': c, 'VARIANT': 1}, paths=True, unwind_fn=[(r'print_digits', 70), (r'.', len(t) + 3)], inline_witness=True, witness='any',
+                    timeout=300, mem_gb=3, bounds={'format': 'the concrete fmt() string %r, exact-size buffer' % t, 'arguments': VARIANTS[1]}, what='fmt() with the real formatters on a concrete realistic format string'))
+    for v, lens in ((0, range(0, 6 if quick else 8)), (1, range(0, 5 if quick else 6)), (2, range(0, 5 if quick else 7))):     # real formatters at length 6 ('{:999}': 1000-iteration padding loops): out of memory at 3 GB
         for l in lens:
             qs.append(Q('fmt.bytes.%s.len%d' % (('probe', 'real', 'noargs')[v], l), 'c20_fmt', 'c20_fmt.c', 'harness_bytes', defs={'LEN': l, 'VARIANT': v}, paths=True,
-                        unwind_fn=[(r'print_digits', 1002), (r'.', l + 3)], inline_witness=True, witness='any', timeout=1800, mem_gb=3,
+                        unwind_fn=[(r'print_digits', max(70, 10 ** max(0, l - 3) + 2)), (r'.', l + 3)], inline_witness=True, witness='any', timeout=3600, mem_gb=3,
                         bounds={'format string': 'EVERY byte string of length exactly %d over the full byte alphabet, exact-size buffer, no terminator' % l, 'arguments': VARIANTS[v]},
                         what='fmt() on every format string of length %d: all reads inside the view, no UB, terminates' % l))
     for d in ((3, 9, 10, 11, 12) if quick else range(1, 13)):
@@ -55,13 +109,23 @@ def queries(tier):
                     what='fmt() width accumulator on a run of %d digits: no signed overflow' % d))
     # ---------------------------------------------------------------- parse_arguments
     for tb in (1, 2, 3):
-        for l in range(0, 6 if quick else 8):
+        for c, t in enumerate(CMD_CASES):
+            qs.append(Q('cmdline.concrete.t%d.%d' % (tb, c), 'c20_cmdline', 'c20_cmdline.c', 'harness_concrete', defs={'CASE': c, 'TABLE': tb}, paths=True, unwind_fn=[(r'.', len(t) + 3)], inline_witness=True, witness='any',
+                        timeout=300, mem_gb=3, bounds={'command line': 'the concrete command line %r, exact-size buffer' % t, 'option table': TABLES[tb]}, what='parse_arguments on a concrete realistic command line'))
+        for l in range(0, 4 if quick else 5):
             qs.append(Q('cmdline.t%d.len%d' % (tb, l), 'c20_cmdline', 'c20_cmdline.c', 'harness_cmdline', defs={'LEN': l, 'TABLE': tb}, paths=True, unwind_fn=[(r'.', l + 3)], inline_witness=True, witness='any',
                         timeout=3600, mem_gb=3, bounds={'command line': 'EVERY byte string of length exactly %d over the full byte alphabet, exact-size buffer, no terminator' % l, 'option table': TABLES[tb]},
                         what='parse_arguments on every command line of length %d: reads inside the buffer, views handed to options inside the buffer, only targets written, terminates' % l))
+        if not quick:
+            for l in (5,):       # (length 6: 7 x 16807 strings per table, > 35 min and > 3 GB per piece: outside the budget)
+                for b0 in range(7):
+                    qs.append(Q('cmdline.alpha.t%d.len%d.b%d' % (tb, l, b0), 'c20_cmdline', 'c20_cmdline.c', 'harness_cmdline_alpha', defs={'LEN': l, 'TABLE': tb, 'B0': b0}, paths=True, unwind_fn=[(r'.', l + 3)],
+                                inline_witness=True, witness='any', timeout=5400, mem_gb=3,
+                                bounds={'command line': 'EVERY string of length exactly %d over the reduced alphabet {\" space = a b 1 x(other)}, byte 0 = alphabet[%d], exact-size buffer' % (l, b0), 'option table': TABLES[tb]},
+                                what='parse_arguments on every command line of length %d over the reduced alphabet' % l))
     # ---------------------------------------------------------------- to_number
     for ty in range(4):
-        for l in range(0, 21):
+        for l in ((0, 1, 2, 5, 9, 10, 11, 18, 19, 20) if quick else range(0, 21)):
             qs.append(Q('tonum.%s.len%d' % (TYPES[ty], l), 'c20_cmdline', 'c20_cmdline.c', 'harness_tonum', defs={'LEN': l, 'TY': ty}, unwind=l + 2, inline_witness=True, witness='any', timeout=600, mem_gb=3,
                         bounds={'input': 'EVERY byte string of length exactly %d (digits and non-digits), exact-size buffer' % l, 'T': TYPES[ty]},
                         what='to_number<%s> on every %d-byte string: no read outside the view, no signed overflow' % (TYPES[ty], l)))
@@ -80,5 +144,21 @@ LEVEL = 'model_checking'
 TECHNIQUE = ('bounded symbolic execution of the clang-lowered real code with CBMC: single-path exploration (--paths lifo, one SAT call per control-flow path) for the three parsers, '
              'path merging for to_number; pointer/bounds checks on, UB assertions from ir2c --ub-checks, exact-size input objects, hand-built va_list over an exact-size slot array')
 FUNCTION_PATTERNS = [r'frg::', r'^c20_']
-ASSUMPTIONS = []
-OUTSIDE = []
+ASSUMPTIONS = [
+    'printf: the agent is a stub that accepts the conversions c p s d i o x X u (pop_arg<char>, <void*>, <int> or <long> by size modifier) and refuses every other conversion character; '
+    'va_list built by hand for the x86-64 SysV layout with both register save areas exhausted, so every va_arg takes the next 8-byte stack slot',
+    'printf: declared(fmt) = number of `*` and consuming conversions for sequential formats, the largest n$ for positional formats, their SUM for formats that mix both styles (undefined in POSIX; judged leniently); `0$` is not a position',
+    'printf arg_list (positional cache) has exactly 9 entries (positions 1$..9$ are all the parser can express)',
+    'a stop through frg_panic (FRG_ASSERT) is admissible; after such a stop nothing further is required',
+    'single-path exploration: one CBMC run explores every control-flow path inside the per-loop unwinding bounds; the bounds are checked by unwinding assertions',
+    'clang-14 -O1 lowering is the semantics checked; select expressions of the generated C are rewritten as branches (props/C20.py prepare); the translation, including that rewrite, is validated differentially on every run',
+]
+OUTSIDE = [
+    'printf format strings longer than 3 (quick) / 4 (thorough) bytes other than the listed concrete formats, digit-run families and positional triples; floating-point conversions (no FP in the translator) and the real formatting agents (C19)',
+    'long all-symbolic digit runs: only the last 1 (quick) / 2 (thorough) digits of a run are symbolic (single-path mode does not prune infeasible branches; an all-symbolic 10-digit run gave no verdict in 15 min, path merging does not finish symex)',
+    'fmt() strings longer than 5 (quick) / 7 (thorough) bytes with probe arguments, 4 / 5 with the real formatters, other than the concrete strings and the width families; argument tuples other than (int, unsigned long, char)',
+    'command lines longer than 3 (quick) / 4 (thorough) arbitrary bytes, 5 bytes over the reduced alphabet (thorough), other than the concrete lines; option tables other than the three listed; as_number<T> for T other than int',
+    'to_number inputs longer than 20 bytes; character types other than char',
+    'the sink/agent side (what is done with the emitted text), which C19 checks',
+]
+UB_TOLERANT_VALIDATION = False
